@@ -560,7 +560,13 @@ class Range(Terminal):
         super().__init__(tag)
         self.start = start
         self.stop = stop
-        self._re = re.compile(rf"[{re.escape(self.start)}-{re.escape(self.stop)}]")
+        self._re = re.compile(self._pattern())
+
+    def _pattern(self) -> str:
+        if self.start > self.stop:
+            # An empty range, like 'z'..'a', never matches.
+            return "(?!)"
+        return rf"[{re.escape(self.start)}-{re.escape(self.stop)}]"
 
     def __str__(self) -> str:
         return f"{self.tag_str()}'{self.start!r}'..'{self.stop!r}'"
@@ -576,7 +582,7 @@ class Range(Terminal):
         """Emit Python code for a character range."""
         gen.writeln("# <Range>")
 
-        pattern = rf"[{re.escape(self.start)}-{re.escape(self.stop)}]"
+        pattern = self._pattern()
         re_var = gen.constant("RE", f"re.compile({pattern!r})")
 
         gen.writeln(f"if match := {re_var}.match(state.input, state.pos):")
